@@ -27,6 +27,7 @@ import (
 	"sync/atomic"
 	"time"
 
+	"github.com/bnb-chain/tss-lib/v2/common"
 	"github.com/bnb-chain/tss-lib/v2/crypto/paillier"
 
 	"verif/internal/core"
@@ -684,13 +685,24 @@ func (c *chk) collect(jobs []*genJob, deadline time.Time, thorough bool) {
 	hung := 0
 	var hungList []string
 	for _, j := range jobs {
-		wait := time.Until(deadline)
-		if wait < 0 {
-			wait = 0
-		}
+		finished := false
 		select {
-		case <-j.done:
-		case <-time.After(wait):
+		case <-j.done: // never race a finished job against an expired timer
+			finished = true
+		default:
+		}
+		if !finished {
+			wait := time.Until(deadline)
+			if wait < 0 {
+				wait = 0
+			}
+			select {
+			case <-j.done:
+				finished = true
+			case <-time.After(wait):
+			}
+		}
+		if !finished {
 			hung++
 			hungList = append(hungList, fmt.Sprintf("L%d/seed%d/conc%d", j.L, j.seed, j.conc))
 			r.Violate("c19-overlap/paillier.GenerateKeyPair/safe-prime-generator-does-not-return:hang",
@@ -774,12 +786,28 @@ func Run(r *core.Run) {
 		tinyCipherL[14] = true
 		smallL = append(smallL, 22)
 	}
+	// a time budget may only cut the run (exhaustive:false); generous so that a loaded box does not cut quick
+	budget := 150 * time.Second
+	if thorough {
+		budget = 7*time.Minute + 30*time.Second
+	}
+	over := func(k *key, what string) bool {
+		if r.Elapsed() > budget {
+			r.Cap("time budget: " + what + " skipped for " + k.name)
+			return true
+		}
+		return false
+	}
 	var all []*key
 	for _, L := range tinyL {
 		ks := keySpace(L, false, "tiny")
 		r.Set(fmt.Sprintf("tiny_keys_L%d", L), len(ks))
 		for _, k := range ks {
 			c.structure(k, "hand-built") // self-check of the hand-built key against the same rules
+			all = append(all, k)
+			if over(k, "exhaustive passes") {
+				continue
+			}
 			if tinyCipherL[L] {
 				c.allCiphertexts(k)
 				phase("tiny_all_ciphertexts")
@@ -790,8 +818,14 @@ func Run(r *core.Run) {
 				c.allPairs(k, table)
 				phase("tiny_all_pairs")
 			}
-			all = append(all, k)
-			r.Sample(8, map[string]string{"key": k.name, "case": "all ciphertexts in [0,N^2), all m, all pairs", "N": k.sk.N.String()})
+			done := "all m in [0,N)"
+			if tinyCipherL[L] {
+				done += ", all ciphertexts in [0,N^2)"
+			}
+			if tinyPairsL[L] {
+				done += ", all (m1,m2) HomoAdd, all (k,m) HomoMult"
+			}
+			r.Sample(8, map[string]string{"key": k.name, "case": done, "N": k.sk.N.String()})
 		}
 	}
 	for _, L := range smallL {
@@ -799,8 +833,11 @@ func Run(r *core.Run) {
 		r.Set(fmt.Sprintf("small_keys_L%d", L), len(ks))
 		for _, k := range ks {
 			c.structure(k, "hand-built")
-			c.allPlaintexts(k, false)
 			all = append(all, k)
+			if over(k, "all-plaintexts pass") {
+				continue
+			}
+			c.allPlaintexts(k, false)
 		}
 	}
 	phase("small_all_plaintexts")
@@ -828,6 +865,11 @@ func Run(r *core.Run) {
 	core.ParallelFor(len(smallKeys), runtime.NumCPU(), func(i int) { c.battery(smallKeys[i], thorough, 1) })
 	phase("battery_small_keys")
 
+	// watchdog: >= 125 s after launch AND >= 120 s after the competing exhaustive work has ended
+	// (finished jobs are collected immediately; only a call that never returns costs the wait)
+	if d := time.Now().Add(120 * time.Second); d.After(genDeadline) {
+		genDeadline = d
+	}
 	c.collect(jobs, genDeadline, thorough)
 	phase("generated_keys")
 
@@ -839,8 +881,8 @@ func Run(r *core.Run) {
 			j := startGen(2048, 0, 0, 175*time.Second)
 			select {
 			case <-j.done:
-				if j.err != nil {
-					r.Cap(fmt.Sprintf("2048-bit GenerateKeyPair did not finish within 175 s (%v); skipped", j.err))
+				if j.err == common.ErrGeneratorCancelled {
+					r.Cap("2048-bit GenerateKeyPair did not finish within 175 s; skipped")
 				} else {
 					r.Set("generate_2048_seconds", int(j.took.Seconds()))
 					c.collect([]*genJob{j}, time.Now().Add(time.Second), thorough)
